@@ -1,0 +1,51 @@
+//go:build verif
+
+// Contracts for govc (see /verif/DESIGN.md). Comment-only; compiled only with -tags verif.
+
+package syslogparser
+
+//@ property C09 C07 C12 C19
+
+//@ global len(syslogprotocol.FacilityNames) == 24
+
+// representation invariant of the parser (established by NewParser): eight level names, nine field locators inside the
+// records of its allocator, pairwise distinct
+//@ pure func inrec(p *syslogParser, loc int) bool := 0 <= loc && loc < len(p.schema.fieldNames)
+//@ pure func validparser(p *syslogParser) bool :=
+//@     p != nil && base.allocok(p.allocator) && p.allocator.initialRefCount >= 1 && p.inputCounter != nil && p.overflowCounter != nil
+//@  && len(p.levelMapping) == 8 && len(p.restFieldLocators) == 6 && len(p.schema.fieldNames) <= p.allocator.nfields
+//@  && inrec(p, p.fieldFacilityLocator) && inrec(p, p.fieldLevelLocator) && inrec(p, p.fieldLogLocator)
+//@  && (forall j int :: 0 <= j && j < 6 ==> inrec(p, p.restFieldLocators[j]))
+//@  && p.fieldFacilityLocator != p.fieldLevelLocator && p.fieldFacilityLocator != p.fieldLogLocator && p.fieldLevelLocator != p.fieldLogLocator
+//@  && (forall j int :: 0 <= j && j < 6 ==> p.restFieldLocators[j] != p.fieldFacilityLocator && p.restFieldLocators[j] != p.fieldLevelLocator
+//@                                         && p.restFieldLocators[j] != p.fieldLogLocator)
+//@  && (forall j int, k int :: 0 <= j && j < k && k < 6 ==> p.restFieldLocators[j] != p.restFieldLocators[k])
+
+// counters (uint64, not yet written to the metrics); the 2^62 bound keeps the machine additions exact
+//@ pure func passN(p *syslogParser) int := p.inputCounter.passedRecordsCountTotal.unwrittenValue
+//@ pure func passB(p *syslogParser) int := p.inputCounter.passedRecordsLengthTotal.unwrittenValue
+//@ pure func dropN(p *syslogParser) int := p.inputCounter.droppedRecordsCountTotal.unwrittenValue
+//@ pure func dropB(p *syslogParser) int := p.inputCounter.droppedRecordsLengthTotal.unwrittenValue
+//@ pure func countersmall(p *syslogParser) bool :=
+//@     passN(p) < 4611686018427387904 && passB(p) < 4611686018427387904 && dropN(p) < 4611686018427387904 && dropB(p) < 4611686018427387904
+
+//@ func (parser *syslogParser) onMalformed(record *base.LogRecord, warning string, rawLog []byte)
+//@   requires validparser(parser) && countersmall(parser) && record != nil && record._refCount >= 1 && record.RawLength >= 0
+//@   requires len(record.Fields) == parser.allocator.nfields
+//@   requires record._backbuf != nil ==> exists k int :: 0 <= k && k < 32 && len(*record._backbuf) == util.pow2(k)
+//@   modifies record._refCount, record.RawLength, record.Timestamp, record._backbuf, record.Fields[:]
+//@   modifies parser.inputCounter.droppedRecordsCountTotal, parser.inputCounter.droppedRecordsLengthTotal
+//@   ensures  dropN(parser) == old(dropN(parser)) + 1 && dropB(parser) == old(dropB(parser)) + old(record.RawLength)
+//@   ensures  record._refCount == old(record._refCount) - 1
+
+//@ func (parser *syslogParser) Parse(input []byte, timestamp time.Time) *base.LogRecord
+//@   requires validparser(parser) && countersmall(parser) && len(input) < 2147483648
+//@   modifies base.LogRecord.Fields, base.LogRecord.RawLength, base.LogRecord.Timestamp, base.LogRecord.Unescaped, base.LogRecord._backbuf, base.LogRecord._refCount, mem(byte), mem(string)
+//@   modifies parser.inputCounter.passedRecordsCountTotal, parser.inputCounter.passedRecordsLengthTotal
+//@   modifies parser.inputCounter.droppedRecordsCountTotal, parser.inputCounter.droppedRecordsLengthTotal
+//@   ensures[counted-exactly-once]
+//@        (result != nil && passN(parser) == old(passN(parser)) + 1 && passB(parser) == old(passB(parser)) + len(input)
+//@                       && dropN(parser) == old(dropN(parser)) && dropB(parser) == old(dropB(parser)))
+//@     || (result == nil && dropN(parser) == old(dropN(parser)) + 1 && dropB(parser) == old(dropB(parser)) + len(input)
+//@                       && passN(parser) == old(passN(parser)) && passB(parser) == old(passB(parser)))
+//@   ensures  result != nil ==> result.RawLength == len(input) && result.Timestamp == timestamp && len(result.Fields) == parser.allocator.nfields
